@@ -343,6 +343,23 @@ def run(F, rep, tier):
     if unrec:
         rep.bad("C01-R3", "unrecognised-kernels:%s" % ",".join(sorted(unrec)), "kernels the normal-form evaluator cannot read (extend the idiom table): %s" % unrec)
 
+    # ---- R6: operand positions preserved by NativeFunctionCompiler::compile (incl. the MutableReference fallback arms)
+    from rules.c14 import positional_args
+    rep.rule("C01-R6", "NativeFunctionCompiler::compile hands (first, second) operand to the dispatcher in that order in every arm (non-commutative operators)")
+    npos_total = 0
+    done = set()
+    for var, op, nfc, dkey in families:
+        if op in COMMUTATIVE or op == "xor" or nfc in done:
+            continue
+        done.add(nfc)
+        crate = dkey[0] + ".lib"
+        for it in F.syn(crate):
+            if it["k"] == "method" and it["name"] == "compile" and it["trait"] and last_seg(it["trait"]) == "NativeFunctionCompiler" and X.type_head(it["self"]) == nfc:
+                for mt in find(it["body"], "match"):
+                    for arm in mt[2]:
+                        npos_total += positional_args(rep, "C01-R6", "%s::compile (%s)" % (nfc, crate), arm[0], arm[2], r"_fxn$", "%s::compile" % nfc)
+    rep.floor("C01-R6", "operand-forwarding arms in non-commutative operator compilers", npos_total, 20)
+
     # ---- unary operators (factor): Negate / Not
     for nfc, op in UNARY_ORACLE.items():
         root = [f for f in cg.bodies if re.match(r"<.*::%s as mech_core::functions::NativeFunctionCompiler>::compile$" % re.escape(nfc), f)]
